@@ -19,7 +19,7 @@ RULE = ("schemas built top-down to depth <= 4 with every combination of schema-l
         "random format, flat and nested) never override a variable but do set unbound fields, explicit assignment "
         "does; wrongly predicted names are detected because the predicted variable is the only one set; non-trivial = "
         ">= 1 bound field with a non-empty variable and >= 1 unbound or unset field; distinct = distinct case content")
-REQUIRED = ("sections_built_with_key_and_env_arguments", "upper_case_decoys_for_lower_case_names", "loads_with_undecodable_values_for_bound_fields", "variables_rejected_by_validator_callback:boom",
+REQUIRED = ("configurations_built_with_keywords_and_bound_validators", "flattened_keys_for_bound_fields_loaded", "sections_built_with_key_and_env_arguments", "upper_case_decoys_for_lower_case_names", "loads_with_undecodable_values_for_bound_fields", "variables_rejected_by_validator_callback:boom",
             "second_build_after_environment_change", "family:bytes", "style:auto", "style:getitem", "style:dotted", "list_item_bound_checked", "list_item_document_names_bound_field",
             "setting:ctype-True", "setting:ctype-named", "constructed_ok", "bound_values_checked", "unbound_defaults_checked", "invalid_variable_rejected",
             "loads_do_not_override_checked", "loads_set_unbound_checked", "assignment_overrides_checked",
@@ -184,6 +184,14 @@ def probes(ctx):
                  "assign": 0.9, "k7": True}
 
 
+def directed(ctx):
+    """Configurations built WITH keyword values: a bound field's validator callback may look at a sibling the caller gave."""
+    for order in ("bound-first", "sibling-first"):
+        for how in ("schema-call", "config-type", "config-class"):
+            for access in ("attr", "item"):
+                yield {"ctor_kw": True, "order": order, "how": how, "access": access, "schema": {}, "environ": {}, "tree": {}}
+
+
 def abbreviate(case):
     return case
 
@@ -308,7 +316,49 @@ def run_k7(case, ctx, res):
                  "skips the key because the variable is set - the document value is silently dropped")
 
 
+def run_ctor_kw(case, ctx, res):
+    cc = ctx.cc
+    if "VFC14KW_SIZE" in os.environ:
+        return
+
+    def check(cfg, value):
+        limit = cfg.limit if case["access"] == "attr" else cfg["limit"]
+        if limit is None or value > limit:
+            raise ValueError("size %r exceeds the limit %r" % (value, limit))
+        return value
+
+    schema = cc.Schema()
+    if case["order"] == "bound-first":
+        schema.size = cc.IntField(env="VFC14KW_SIZE", validator=check, default=1)
+        schema.limit = cc.IntField(default=10)
+    else:
+        schema.limit = cc.IntField(default=10)
+        schema.size = cc.IntField(env="VFC14KW_SIZE", validator=check, default=1)
+    schema.name = cc.StringField(default="n")
+    os.environ["VFC14KW_SIZE"] = "50"
+    try:
+        if case["how"] == "schema-call":
+            cfg = schema(limit=100, name="given")
+        elif case["how"] == "config-class":
+            cfg = cc.Config(schema, limit=100, name="given")
+        else:
+            cfg = cc.make_type(schema, "Volume", module="vf_types")(limit=100, name="given")
+    except Exception as exc:
+        res.viol("M-env", "construction-with-keywords-raises", "VFC14KW_SIZE=50 is valid (the caller gives limit=100, the validator of the "
+                 "bound field allows size <= limit), but building the configuration (%s, %s) raised %s: %s" % (
+                     case["how"], case["order"], type(exc).__name__, str(exc)[:150]))
+        return
+    finally:
+        os.environ.pop("VFC14KW_SIZE", None)
+    res.count("configurations_built_with_keywords_and_bound_validators")
+    if cfg.size != 50 or cfg.limit != 100 or cfg.name != "given":
+        res.viol("M-env", "construction-with-keywords-values", "built with limit=100, name='given' and VFC14KW_SIZE=50: size=%r limit=%r name=%r" % (
+            cfg.size, cfg.limit, cfg.name))
+
+
 def run(case, ctx, res):
+    if case.get("ctor_kw"):
+        return run_ctor_kw(case, ctx, res)
     if case.get("k7"):
         return run_k7(case, ctx, res)
     cc = ctx.cc
@@ -401,6 +451,23 @@ def _round(case, ctx, res, cc, root, names, built, environ, label):
         if not _check_values(res, cfg, names, bound, loaded, label + how, case):
             return False
         if not _check_lists(res, cfg, root, tree, "", bound, env, label + how, case):
+            return False
+    # a document that names a nested bound field by a flattened top-level key ("section.option") does not get at it either
+    for path, (node, name, norm) in [kv for kv in bound.items() if "." in kv[0] and "[]" not in kv[0]][:2]:
+        other = None
+        for cand in gen.candidates(ctx.cache.setdefault("rng", __import__("random").Random(5)), node, 12, env):
+            ok, n2 = model.accepts(node, cand, env)
+            if ok is True and n2 is not None and not _eq(n2, norm) and isinstance(cand, (str, int, float, bool)):
+                other = cand
+                break
+        if other is None:
+            continue
+        res.count("flattened_keys_for_bound_fields_loaded")
+        try:
+            cfg.load_tree({path: other})
+        except Exception:
+            res.count("flattened_keys_rejected")
+        if not _check_values(res, cfg, names, bound, loaded, label + "load_tree(flattened key %s)" % path, case):
             return False
     # a document may carry, for a field the environment overrides, a value that cannot even be decoded / validated:
     # it is ignored like any other value for that field
